@@ -255,6 +255,14 @@ func buildNative(files []*HarnessFile, dir string) (*nativeBuild, error) {
 		}
 		ov2[k] = v
 	}
+	cuts, err := nativeCuts(files, dir, tmp) // declared cuts of project functions (x_c12.go)
+	if err != nil {
+		os.RemoveAll(tmp)
+		return nil, err
+	}
+	for k, v := range cuts {
+		ov2[k] = v
+	}
 	ovb, _ := json.Marshal(map[string]interface{}{"Replace": ov2})
 	ovPath := filepath.Join(tmp, "overlay.json")
 	os.WriteFile(ovPath, ovb, 0644)
